@@ -136,3 +136,360 @@ def c07_pairs(seed):
                       tables=case.used_tables() or ['G'], K=case.K, strings_list=strings,
                       nullable=case.nullable, label='%s/%s/%s' % (case.family, case.notes, kind)))
   return pairs
+
+
+# ---------------------------------------------------------------- C11: shorthand <-> long form
+
+def sugar_pos_to_named(prog, rnd):
+  """positional arguments <-> col0:, col1:, ... (body atoms, calls and heads)"""
+  def fn(n):
+    if isinstance(n, Atom) and n.args and rnd.random() < 0.8:
+      return Atom(n.pred, [], [('col%d' % i, a) for i, a in enumerate(n.args)] + list(n.nargs))
+    if isinstance(n, ValAtom) and n.args and rnd.random() < 0.8:
+      return ValAtom(n.pred, [], [('col%d' % i, a) for i, a in enumerate(n.args)] + list(n.nargs), n.value)
+    if isinstance(n, Call) and n.args and rnd.random() < 0.8:
+      return Call(n.pred, [], [('col%d' % i, a) for i, a in enumerate(n.args)] + list(n.nargs))
+    return n
+  rules = []
+  heads = {}
+  for r in prog.rules:
+    if r.pred not in heads:
+      heads[r.pred] = rnd.random() < 0.6
+  for r in prog.rules:
+    r2 = map_rule(r, fn)
+    if heads[r.pred] and r2.args:
+      r2 = Rule(r2.pred, [], [('col%d' % i, a) for i, a in enumerate(r2.args)] + r2.nargs, r2.value,
+                r2.distinct, r2.body, r2.value_style)
+    rules.append(r2)
+  return Program(rules, prog.annotations, prog.ext, prog.engine_line)
+
+
+def sugar_field_shorthand(prog, rnd):
+  """`a:` <-> `a: a`"""
+  def fn(n):
+    if isinstance(n, (Atom, ValAtom, Call)):
+      nargs = []
+      for k, v in n.nargs:
+        if v is None:
+          nargs.append((k, Var(k)))
+        elif isinstance(v, Var) and v.name == k:
+          nargs.append((k, None))
+        else:
+          nargs.append((k, v))
+      if isinstance(n, ValAtom):
+        return ValAtom(n.pred, n.args, nargs, n.value)
+      return type(n)(n.pred, n.args, nargs)
+    return n
+  rules = []
+  for r in prog.rules:
+    r2 = map_rule(r, fn)
+    nargs = []
+    for k, v in r2.nargs:
+      if v is None:
+        nargs.append((k, Var(k)))
+      elif isinstance(v, Var) and v.name == k:
+        nargs.append((k, None))
+      else:
+        nargs.append((k, v))
+    r2.nargs = nargs
+    rules.append(r2)
+  return Program(rules, prog.annotations, prog.ext, prog.engine_line)
+
+
+def sugar_value(prog, rnd):
+  """`F(x) = v` <-> `F(x, logica_value: v)` in heads; `F(x) == v` atoms <-> logica_value: v"""
+  def fn(n):
+    if isinstance(n, ValAtom):
+      return Atom(n.pred, n.args, list(n.nargs) + [('logica_value', n.value)])
+    if isinstance(n, Atom) and n.nargs and n.nargs[-1][0] == 'logica_value' and n.nargs[-1][1] is not None:
+      return ValAtom(n.pred, n.args, n.nargs[:-1], n.nargs[-1][1])
+    return n
+  rules = []
+  for r in prog.rules:
+    r2 = map_rule(r, fn)
+    if r2.value is not None and not isinstance(r2.value, Agg):
+      r2.value_style = 'logica_value' if r2.value_style == '=' else '='
+    rules.append(r2)
+  return Program(rules, prog.annotations, prog.ext, prog.engine_line)
+
+
+class _Lifter:
+  """functional call inside an expression <-> extra conjunct binding logica_value"""
+
+  def __init__(self):
+    self.n = 0
+
+  def lift(self, e, acc):
+    if isinstance(e, Call):
+      args = [self.lift(a, acc) for a in e.args]
+      nargs = [(k, self.lift(v, acc) if v is not None else None) for k, v in e.nargs]
+      self.n += 1
+      x = Var('lv%d' % self.n)
+      acc.append(Atom(e.pred, args, nargs + [('logica_value', x)]))
+      return x
+    if isinstance(e, AggE):
+      inner = []
+      ee = self.lift(e.e, inner)
+      body = self.prop(e.body) if e.body is not None else Conj([])
+      items = (inner + (body.items if isinstance(body, Conj) else [body]))
+      return AggE(e.op, ee, Conj(items), e.style)
+    if isinstance(e, Node):
+      return mapn(e, lambda c: self.lift(c, acc))
+    return e
+
+  def prop(self, p):
+    if isinstance(p, Conj):
+      out = []
+      for x in p.items:
+        q = self.prop(x)
+        out.extend(q.items if isinstance(q, Conj) else [q])
+      return Conj(out)
+    if isinstance(p, Disj):
+      d = Disj([self.prop(x) for x in p.items])
+      if getattr(p, 'bare', False):
+        d.bare = True
+      return d
+    if isinstance(p, Neg):
+      return Neg(self.prop(p.p))
+    if isinstance(p, Impl):
+      return Impl(self.prop(p.a), self.prop(p.b))
+    acc = []
+    q = self.lift(p, acc)
+    if not acc:
+      return q
+    return Conj(acc + [q])
+
+
+def sugar_call_as_conjunct(prog, rnd):
+  rules = []
+  for r in prog.rules:
+    lf = _Lifter()
+    extra = []
+    args = [lf.lift(a, extra) for a in r.args]
+    nargs = []
+    for k, v in r.nargs:
+      if v is None:
+        nargs.append((k, None))
+      elif isinstance(v, Agg):
+        nargs.append((k, Agg(v.op, lf.lift(v.e, extra))))
+      else:
+        nargs.append((k, lf.lift(v, extra)))
+    value = r.value
+    if isinstance(value, Agg):
+      value = Agg(value.op, lf.lift(value.e, extra))
+    elif value is not None:
+      value = lf.lift(value, extra)
+    body = lf.prop(r.body) if r.body is not None else None
+    if extra:
+      items = list(extra) + ([body] if body is not None else [])
+      body = Conj(items)
+    rules.append(Rule(r.pred, args, nargs, value, r.distinct, body, r.value_style))
+  return Program(rules, prog.annotations, prog.ext, prog.engine_line)
+
+
+def sugar_eq(prog, rnd):
+  """`=` <-> `==` in propositions"""
+  def fn(n):
+    if isinstance(n, Cmp) and n.op == '==' and not (isinstance(n.b, AggE) and n.b.style == 'concise'):
+      return Cmp('=', n.a, n.b)
+    if isinstance(n, Cmp) and n.op == '=':
+      return Cmp('==', n.a, n.b)
+    return n
+
+  def body_only(r):
+    if r.body is None:
+      return r
+    # only proposition-level comparisons (not comparisons nested in expressions)
+    def walk(p):
+      if isinstance(p, Conj):
+        return Conj([walk(x) for x in p.items])
+      if isinstance(p, Disj):
+        d = Disj([walk(x) for x in p.items])
+        if getattr(p, 'bare', False):
+          d.bare = True
+        return d
+      if isinstance(p, Neg):
+        return Neg(walk(p.p))
+      if isinstance(p, Impl):
+        return Impl(walk(p.a), walk(p.b))
+      if isinstance(p, Cmp):
+        return fn(p)
+      return p
+    return Rule(r.pred, r.args, r.nargs, r.value, r.distinct, walk(r.body), r.value_style)
+  return Program([body_only(r) for r in prog.rules], prog.annotations, prog.ext, prog.engine_line)
+
+
+def sugar_negation(prog, rnd):
+  """`~P` <-> `Max{1 :- P} is null`;  `A => B` <-> `~(A, ~B)`"""
+  def fn(n):
+    if isinstance(n, Impl):
+      return Neg(Conj([n.a, Neg(n.b)]))
+    if isinstance(n, Neg):
+      return IsNull(AggE('Max', Num(1), n.p if isinstance(n.p, Conj) else Conj([n.p]), 'brace'))
+    return n
+  return Program([map_rule(r, fn) for r in prog.rules], prog.annotations, prog.ext, prog.engine_line)
+
+
+def sugar_impl(prog, rnd):
+  def fn(n):
+    if isinstance(n, Impl):
+      return Neg(Conj([n.a, Neg(n.b)]))
+    return n
+  return Program([map_rule(r, fn) for r in prog.rules], prog.annotations, prog.ext, prog.engine_line)
+
+
+def sugar_combine_style(prog, rnd):
+  """the three combine syntaxes"""
+  order = ['brace', 'combine', 'concise']
+
+  def rot(style, assignable):
+    k = rnd.randint(1, 2)
+    s = order[(order.index(style) + k) % 3]
+    if s == 'concise' and not assignable:
+      s = order[(order.index(s) + 1) % 3]
+      if s == style:
+        s = order[(order.index(s) + 1) % 3]
+    return s
+
+  def walk_prop(p):
+    if isinstance(p, Conj):
+      return Conj([walk_prop(x) for x in p.items])
+    if isinstance(p, Disj):
+      return Disj([walk_prop(x) for x in p.items])
+    if isinstance(p, Neg):
+      return Neg(walk_prop(p.p))
+    if isinstance(p, Impl):
+      return Impl(walk_prop(p.a), walk_prop(p.b))
+    if isinstance(p, Cmp) and p.op in ('==', '=') and isinstance(p.a, Var) and isinstance(p.b, AggE):
+      b = p.b
+      nb = AggE(b.op, walk_expr(b.e), walk_prop(b.body), rot(b.style, True))
+      return Cmp('==', p.a, nb)
+    if isinstance(p, Node):
+      return walk_expr(p)
+    return p
+
+  def walk_expr(e):
+    if isinstance(e, AggE):
+      # a combine that is not the right-hand side of an assignment stays in brace form:
+      # `(combine ... :- ...)` as a call argument is rejected by the parser on purpose
+      return AggE(e.op, walk_expr(e.e), walk_prop(e.body), e.style)
+    if isinstance(e, Node):
+      return mapn(e, walk_expr)
+    return e
+
+  rules = []
+  for r in prog.rules:
+    rules.append(Rule(r.pred, [walk_expr(a) for a in r.args],
+                      [(k, (Agg(v.op, walk_expr(v.e)) if isinstance(v, Agg) else walk_expr(v)) if v is not None else None)
+                       for k, v in r.nargs],
+                      (Agg(r.value.op, walk_expr(r.value.e)) if isinstance(r.value, Agg) else
+                       (walk_expr(r.value) if r.value is not None else None)),
+                      r.distinct, walk_prop(r.body) if r.body is not None else None, r.value_style))
+  return Program(rules, prog.annotations, prog.ext, prog.engine_line)
+
+
+def sugar_in_list(prog, rnd):
+  """`x in [a, b]` <-> `(x == a | x == b)`"""
+  def fn(n):
+    if isinstance(n, InP) and isinstance(n.l, ListE) and 1 <= len(n.l.items) <= 3:
+      return Disj([Cmp('==', n.e, it) for it in n.l.items])
+    return n
+  return Program([map_rule(r, fn) for r in prog.rules], prog.annotations, prog.ext, prog.engine_line)
+
+
+def sugar_rules_as_disjunction(prog, rnd):
+  """several rules <-> one rule whose body is a bare top-level disjunction"""
+  out = []
+  done = set()
+  changed = False
+  for r in prog.rules:
+    if r.pred in done:
+      continue
+    group = prog.rules_of(r.pred)
+    same_head = all(render_head_key(g) == render_head_key(group[0]) for g in group)
+    if len(group) > 1 and same_head and all(g.body is not None for g in group):
+      d = Disj([g.body for g in group])
+      d.bare = True
+      out.append(Rule(r.pred, group[0].args, group[0].nargs, group[0].value, group[0].distinct, d,
+                      group[0].value_style))
+      done.add(r.pred)
+      changed = True
+    else:
+      out.append(r)
+  return Program(out, prog.annotations, prog.ext, prog.engine_line) if changed else prog
+
+
+def render_head_key(r):
+  return render_rule(Rule(r.pred, r.args, r.nargs, r.value, r.distinct, None, r.value_style))
+
+
+def sugar_split_disjunction(prog, rnd):
+  """one rule with a top-level `|` <-> several rules"""
+  out = []
+  changed = False
+  for r in prog.rules:
+    if isinstance(r.body, Disj):
+      for b in r.body.items:
+        out.append(Rule(r.pred, r.args, r.nargs, r.value, r.distinct, b, r.value_style))
+      changed = True
+    elif isinstance(r.body, Conj) and len(r.body.items) == 1 and isinstance(r.body.items[0], Disj):
+      for b in r.body.items[0].items:
+        out.append(Rule(r.pred, r.args, r.nargs, r.value, r.distinct, b, r.value_style))
+      changed = True
+    else:
+      out.append(r)
+  return Program(out, prog.annotations, prog.ext, prog.engine_line) if changed else prog
+
+
+def sugar_value_aggregation(prog, rnd):
+  """`P(k) Op= e` <-> `P(k, logica_value? Op= e) distinct`"""
+  out = []
+  for r in prog.rules:
+    if isinstance(r.value, Agg):
+      out.append(Rule(r.pred, r.args, r.nargs + [('logica_value', r.value)], None, True, r.body))
+    elif r.nargs and r.nargs[-1][0] == 'logica_value' and isinstance(r.nargs[-1][1], Agg) and r.distinct \
+        and not any(isinstance(v, Agg) for _, v in r.nargs[:-1]):
+      out.append(Rule(r.pred, r.args, r.nargs[:-1], r.nargs[-1][1], False, r.body))
+    else:
+      out.append(r)
+  return Program(out, prog.annotations, prog.ext, prog.engine_line)
+
+
+SUGARS = [sugar_pos_to_named, sugar_field_shorthand, sugar_value, sugar_call_as_conjunct, sugar_eq,
+          sugar_negation, sugar_impl, sugar_combine_style, sugar_in_list, sugar_rules_as_disjunction,
+          sugar_split_disjunction, sugar_value_aggregation]
+
+
+def c11_pairs(seed):
+  rnd = random.Random(seed ^ 0xc11)
+  case = base_case(seed, ('core', 'agg', 'agg', 'sugarbase'))
+  prog = case.prog
+  cands = list(SUGARS)
+  rnd.shuffle(cands)
+  pairs = []
+  strings = lang.strings_of(prog)
+  made = 0
+  for sugar in cands:
+    prog2 = sugar(prog, rnd)
+    if prog2.text() == prog.text():
+      continue
+    for pred in case.check[-2:]:
+      pairs.append(dict(a=Side(prog.text(), pred, label='short'),
+                        b=Side(prog2.text(), pred, label=sugar.__name__),
+                        tables=case.used_tables() or ['G'], K=case.K, strings_list=strings,
+                        nullable=case.nullable,
+                        label='%s/%s/%s' % (case.family, case.notes, sugar.__name__)))
+    made += 1
+    if made >= (12 if case.family == 'sugarbase' else 3):
+      break
+  return pairs
+
+
+def c11_kf_pairs(seed):
+  """KF-C11-eq-after-expression witness: always exercised."""
+  x, v = Var('x'), Var('v')
+  lhs = [Bin('+', x, Num(1)), Bin('+', Bin('+', x, x), Elem(ListE([x]), Num(0)))][seed % 2]
+  a = Program([Rule('T', [x, v], body=Conj([gen.A('G', x), Cmp('==', lhs, v)]))], ext=gen.EXT)
+  b = sugar_eq(a, random.Random(0))
+  return [dict(a=Side(a.text(), 'T', label='short'), b=Side(b.text(), 'T', label='sugar_eq'),
+               tables=['G'], K=2, strings_list=[], label='kf_witness/sugar_eq')]
